@@ -29,6 +29,11 @@ pub struct Case {
     pub block: &'static str,
     /// 0 plain, 1 restricted admin, 2 blank credentials, 3 logon from the NT hash
     pub mode: u8,
+    /// direct x224 connect without an authentication provider (only with selections that do not need one)
+    pub no_provider: bool,
+    /// Some((first_is_nla, first_check, second_is_nla, second_check)): two upgrade calls on the same transport
+    /// (tpkt start_ssl / start_nla) against the certificate of the case; everything else is ignored
+    pub upgrades: Option<(bool, bool, bool, bool)>,
 }
 
 pub struct C02 {
@@ -72,6 +77,41 @@ fn only_tls_records(b: &[u8]) -> Result<usize, String> {
     Ok(n)
 }
 
+/// two upgrade calls on one transport; judged: a call with checking on against an untrusted certificate must fail
+/// and the server must not receive any application byte during it
+fn two_upgrades(c: &Case, cfg: &ConnCfg, n1: bool, c1: bool, n2: bool, c2: bool) -> Outcome {
+    let mut pp = ServerParams { selected: if n1 { 2 } else { 1 }, ..Default::default() };
+    pp.acct_user = cfg.client.user.clone();
+    pp.acct_domain = cfg.client.domain.clone();
+    pp.acct_password = cfg.client.password.clone();
+    let peer = match TlsPeer::new(pp, vec![], c.cert) {
+        Ok(p) => Rc::new(RefCell::new(p)),
+        Err(e) => return Outcome::fail("setup", "machinery", e),
+    };
+    // the server side starts TLS as soon as the client hello arrives: skip the X.224 negotiation
+    peer.borrow_mut().expect_tls_immediately();
+    let link = MemLink::with_peer(peer.clone());
+    let mut t = tpkt::Client::new(Link::new(Stream::Raw(link)));
+    let untrusted = !c.cert.trusted();
+    let mut results = vec![];
+    for (k, (nla, check)) in [(n1, c1), (n2, c2)].into_iter().enumerate() {
+        let before = peer.borrow().plaintext_in.len();
+        let mut ntlm = Ntlm::new(cfg.client.domain.clone(), cfg.client.user.clone(), cfg.client.password.clone());
+        let r = if nla { t.start_nla(check, &mut ntlm, false) } else { t.start_ssl(check) };
+        let sent = peer.borrow().plaintext_in.len() - before;
+        let ok = r.is_ok();
+        results.push(format!("{}{}:{}", if nla { "nla" } else { "ssl" }, if check { "+check" } else { "" }, if ok { "ok" } else { "err" }));
+        if check && untrusted && (ok || sent > 0) {
+            return Outcome::fail("mismatch", "untrusted-certificate-accepted-by-a-later-upgrade", format!("call #{} ({} with checking) returned ok={} and {} application bytes reached the server holding {:?}; calls so far {:?}", k + 1, if nla { "start_nla" } else { "start_ssl" }, ok, sent, c.cert, results));
+        }
+        match r {
+            Ok(next) => t = next,
+            Err(_) => break,
+        }
+    }
+    Outcome::pass(format!("two-upgrades:{}", results.join(",")), true)
+}
+
 impl Prop for C02 {
     fn id(&self) -> &'static str {
         "C02"
@@ -84,7 +124,7 @@ impl Prop for C02 {
     }
     fn prepare(&mut self, tier: Tier) -> Result<(), String> {
         let mut cs = vec![];
-        let base = Case { direct_mask: None, use_nla: true, check_certificate: false, cert: Cert::A, cc_kind: CcKind::Response, selected: 2, cc_flags: 0, cc_len_field: 8, block: "base", mode: 0 };
+        let base = Case { direct_mask: None, use_nla: true, check_certificate: false, cert: Cert::A, cc_kind: CcKind::Response, selected: 2, cc_flags: 0, cc_len_field: 8, block: "base", mode: 0, no_provider: false, upgrades: None };
         // A: every selected-protocol value x configuration (through the public connector)
         for use_nla in [true, false] {
             for check in [false, true] {
@@ -131,6 +171,32 @@ impl Prop for C02 {
                 }
             }
         }
+        // D2: the same without an authentication provider (selections that would need one are left out: offering NLA
+        // without a provider is the caller's contradiction)
+        for mask in [0u32, 1, 2, 3, 8, 9, 0xA, 0xB] {
+            for sel in [0u32, 1, 4, 8, 9, 0x10, 0xFFFF_FFFD] {
+                for k in [CcKind::Response, CcKind::Failure, CcKind::Absent] {
+                    cs.push(Case { direct_mask: Some(mask), cc_kind: k, selected: sel, no_provider: true, block: "offered-mask-no-provider", ..base.clone() });
+                }
+            }
+        }
+        // A2: every selection under the other logon modes (the request on the wire must offer what the check assumes)
+        for mode in 1..=3u8 {
+            for use_nla in [true, false] {
+                for sel in [0u32, 1, 2, 3, 4, 8, 0xB] {
+                    cs.push(Case { use_nla, selected: sel, mode, block: "selected-value-x-mode", ..base.clone() });
+                }
+            }
+        }
+        // F: two upgrade calls on the same transport: a call asking for certificate checking must fail against an
+        // untrusted certificate and send nothing, whatever was done to the link before
+        for cert in [Cert::M, Cert::Expired, Cert::A] {
+            for a in 0..4u8 {
+                for b in 0..4u8 {
+                    cs.push(Case { cert, upgrades: Some((a & 1 != 0, a & 2 != 0, b & 1 != 0, b & 2 != 0)), block: "two-upgrades", ..base.clone() });
+                }
+            }
+        }
         // E: certificates x checking
         for cert in [Cert::A, Cert::B, Cert::M, Cert::ChainTrusted, Cert::Expired, Cert::NotYetValid, Cert::ChainUntrusted, Cert::Forged, Cert::TamperedA] {
             for check in [false, true] {
@@ -167,7 +233,7 @@ impl Prop for C02 {
         json!({"idx": idx, "case": self.cases[idx as usize]})
     }
     fn rule(&self) -> String {
-        "cases = (connector configuration | offered mask, server certificate, connection-confirm contents). [selected-value] all 256 low-byte values, every single bit 2^8..2^31 and mixed patterns x NLA on/off x certificate checking on/off; [reply-kind] failure / echoed request / absent / every other type byte x 6 values; [flags] every flag byte x valid and invalid selection; [length-field]; [offered-mask] x224::Client::connect with masks {0,1,2,3,8,0xB} x 10 selections x 3 kinds; [certificate] trusted RSA, trusted EC, a leaf of a trusted root; and six kinds of untrusted certificate: unknown self-signed, trusted-but-expired, trusted-but-not-yet-valid, leaf of an unknown root, leaf naming the trusted root but signed by another key, trusted certificate with a flipped signature bit; x checking x NLA x logon mode (plain, restricted admin, blank credentials, NT hash). Executed through the real Connector::connect over real TLS. Non-trivial: the reply is not the honest one for the configuration.".into()
+        "cases = (connector configuration | offered mask, server certificate, connection-confirm contents). [selected-value] all 256 low-byte values, every single bit 2^8..2^31 and mixed patterns x NLA on/off x certificate checking on/off; [reply-kind] failure / echoed request / absent / every other type byte x 6 values; [flags] every flag byte x valid and invalid selection; [length-field]; [offered-mask] x224::Client::connect with masks {0,1,2,3,8,0xB} x 10 selections x 3 kinds; [offered-mask-no-provider] the same without an authentication provider; [selected-value-x-mode] 7 selections under restricted admin / blank credentials / hash logon; the negotiation request on the wire must offer exactly the configured protocols; [two-upgrades] every ordered pair of {start_ssl, start_nla} x {checking on, off} on one transport against an untrusted, an expired and a trusted certificate; [certificate] trusted RSA, trusted EC, a leaf of a trusted root; and six kinds of untrusted certificate: unknown self-signed, trusted-but-expired, trusted-but-not-yet-valid, leaf of an unknown root, leaf naming the trusted root but signed by another key, trusted certificate with a flipped signature bit; x checking x NLA x logon mode (plain, restricted admin, blank credentials, NT hash). Executed through the real Connector::connect over real TLS. Non-trivial: the reply is not the honest one for the configuration.".into()
     }
     fn assumptions(&self) -> Vec<String> {
         vec![
@@ -187,6 +253,9 @@ impl Prop for C02 {
         let p = ServerParams { cc_kind: c.cc_kind.clone(), selected: c.selected, cc_flags: c.cc_flags, cc_len_field: c.cc_len_field, ..Default::default() };
         let offered: u32 = c.direct_mask.unwrap_or(if c.use_nla { 3 } else { 1 });
         let cfg = ConnCfg { use_nla: c.use_nla, check_certificate: c.check_certificate, restricted_admin: c.mode == 1, blank_creds: c.mode == 2, use_hash: c.mode == 3, ..Default::default() };
+        if let Some((n1, c1, n2, c2)) = c.upgrades {
+            return two_upgrades(&c, &cfg, n1, c1, n2, c2);
+        }
         let (ok, err, peer, _sh): (bool, String, Rc<RefCell<TlsPeer>>, _) = match c.direct_mask {
             None => match tls_connect(&cfg, p, vec![], c.cert) {
                 Ok(t) => (t.client.is_some(), t.error.clone().unwrap_or_default(), t.peer.clone(), t.sh.clone()),
@@ -205,7 +274,7 @@ impl Prop for C02 {
                 let sh = link.sh.clone();
                 let t = tpkt::Client::new(Link::new(Stream::Raw(link)));
                 let mut ntlm = Ntlm::new(cfg.client.domain.clone(), cfg.client.user.clone(), cfg.client.password.clone());
-                let r = x224::Client::connect(t, mask, c.check_certificate, Some(&mut ntlm), false, false);
+                let r = x224::Client::connect(t, mask, c.check_certificate, if c.no_provider { None } else { Some(&mut ntlm) }, false, false);
                 (r.is_ok(), r.err().map(|e| format!("{:?}", e)).unwrap_or_default(), peer, sh)
             }
         };
@@ -215,6 +284,20 @@ impl Prop for C02 {
             framing::Deframe::Frame(framing::Frame::Tpkt(cr), n) if n == pr.raw_before_tls.len() && framing::parse_x224_cr(&cr).is_ok() => {}
             _ => return Outcome::fail("mismatch", "pre-tls-bytes-are-not-exactly-one-connection-request", format!("{:02x?}", &pr.raw_before_tls[..pr.raw_before_tls.len().min(32)])),
         }
+        // what the request on the wire offered: the selection is judged against it (and it must be what was configured)
+        let offered = match framing::deframe(&pr.raw_before_tls) {
+            framing::Deframe::Frame(framing::Frame::Tpkt(cr), _) => match framing::parse_x224_cr(&cr) {
+                Ok(req) => {
+                    let wire = req.neg.map(|n| n.2).unwrap_or(0);
+                    if wire != offered {
+                        return Outcome::fail("mismatch", "request-offers-something-else-than-configured", format!("requestedProtocols on the wire {:#x}, configured {:#x} (mode {})", wire, offered, c.mode));
+                    }
+                    wire
+                }
+                Err(_) => offered,
+            },
+            _ => offered,
+        };
         // 2. secrets never on the raw transport
         let raw_all = [&pr.raw_before_tls[..], &pr.raw_after_cc[..]].concat();
         for (what, needle) in [("NTLMSSP", b"NTLMSSP".to_vec()), ("password-utf8", cfg.client.password.as_bytes().to_vec()), ("password-utf16", utf16le(&cfg.client.password)), ("user-utf16", utf16le(&cfg.client.user))] {
